@@ -25,7 +25,18 @@ shrink = lambda case: []
 CODES = [421, 450, 451, 452, 500, 550, 552, 554, 599, 400]
 ENH = ["5.7.1", "4.2.0", "0.0.0", "-1.-1.-1", "5.0.0", "2.0.0", "5.10.123"]
 MSGS = [b"", b"plain", b" leading", b"trailing ", b"5.7.1 looks like a code", b"1.2.3", "café €".encode(), b"line one\nline two",
-        b"a\nb\nc", b"a\n5.7.1 b", b"\nstarts empty", b"ends empty\n", b"tab\there", b"x\n\ny", b"5.7.1", b"a  b"]
+        b"a\nb\nc", b"a\n5.7.1 b", b"\nstarts empty", b"ends empty\n", b"tab\there", b"x\n\ny", b"5.7.1", b"a  b",
+        # white space at the edges of continuation lines: an indented list, trailing blanks, a line that is only a blank or a tab
+        b"Rejected by policy:\n  - SPF check failed\n  - no DKIM signature", b"a\nb \nc", b"a\n \nb", b"a\n\tb", b" a\n b\n c", b"a \nb \n",
+        b"a\n 5.7.1 b", b"a\n5.7.1  b", b"a\n5.7.1"]
+WS_ALPHA = [b"a", b" ", b"\t", b"\n", b"5.7.1", b"5.7.1 ", b".", b"-"]
+
+
+def random_msgs(tier, rng):
+    out = []
+    for _ in range(60 if tier == "quick" else 1500):
+        out.append(b"".join(rng.choice(WS_ALPHA) for _ in range(rng.randrange(1, 9))))
+    return out
 
 
 def groups(tier, rng):
@@ -37,6 +48,9 @@ def groups(tier, rng):
                     rt.append("rt\terr\t%s\tse/%d/%s/%s\t250" % (site, code, enh, hx(msg)))
         for msg in MSGS:
             rt.append("rt\terr\t%s\ter/%s\t250" % (site, hx(msg)))
+    for msg in random_msgs(tier, rng):
+        rt.append("rt\terr\t%s\tse/%d/%s/%s\t250" % (rng.choice(["env", "data"]), rng.choice(CODES), rng.choice(ENH), hx(msg)))
+        halves.append("tosmtperr\t%d\t%s" % (rng.choice([554, 421, 250]), hx(msg)))
     for code in CODES[:5]:
         for enh in ENH:
             for msg in MSGS:
